@@ -6,6 +6,7 @@ agrees with the model (induction on its length)."""
 from __future__ import annotations
 
 import ast
+import re
 import itertools
 
 from .. import anchors as A
@@ -67,6 +68,9 @@ def check(P: Project, R: Report) -> None:
                     evs.append(f"put[{subst_text(t.slice, st)}]=" + (subst_text(stmt.value, st) if getattr(stmt, "value", None) is not None else "?"))
                 elif isinstance(t, ast.Attribute) and isinstance(t.value, ast.Subscript) and ast.unparse(t.value.value) == S:
                     evs.append(f"touch[{subst_text(t.value.slice, st)}].{t.attr}=" + subst_text(stmt.value, st))
+                elif isinstance(t, ast.Attribute) and isinstance(t.value, ast.Name) and _fetched_key(subst_text(t.value, st)) is not None:
+                    # the record was fetched first (`rec = store.get(k, …)` / `rec = store[k]`) and is written through the local
+                    evs.append(f"touch[{_fetched_key(subst_text(t.value, st))}].{t.attr}=" + subst_text(stmt.value, st))
                 elif S in tt:
                     evs.append("other-write:" + tt)
         if isinstance(stmt, ast.Delete):
@@ -76,6 +80,18 @@ def check(P: Project, R: Report) -> None:
                 elif S in ast.unparse(t):
                     evs.append("other-write:del " + ast.unparse(t))
         return evs
+
+    def _fetched_key(text: str):
+        """key `k` if `text` is `<store>.get(k[, default])` or `<store>[k]`"""
+        try:
+            n = ast.parse(text, mode="eval").body
+        except SyntaxError:
+            return None
+        if isinstance(n, ast.Call) and isinstance(n.func, ast.Attribute) and n.func.attr == "get" and ast.unparse(n.func.value) == S and n.args:
+            return ast.unparse(n.args[0])
+        if isinstance(n, ast.Subscript) and ast.unparse(n.value) == S:
+            return ast.unparse(n.slice)
+        return None
 
     def call_event(call, st, an):
         nm = call_name(call)
@@ -208,15 +224,45 @@ def check(P: Project, R: Report) -> None:
         sp = [p for p in f.positional_params() if p != "self"][0]
         present, absent = f"{sp} in {S}", f"{sp} not in {S}"
         R.need(out.ret, f"{name} has no return")
+
+        def _presence(st):
+            """True / False / None: what the path knows about `sp in store` (membership test, a get() compared with None or
+            with a sentinel default, truthiness of a get())"""
+            if present in st.lits:
+                return True
+            if absent in st.lits:
+                return False
+            for l in st.lits:
+                m_ = re.fullmatch(re.escape(S) + r"\.get\(" + re.escape(sp) + r"(?:, (\w+))?\) is (not )?(\w+)", l)
+                if m_ and (m_.group(3) == "None" and m_.group(1) in (None, "None") or (m_.group(1) is not None and m_.group(3) == m_.group(1))):
+                    return bool(m_.group(2))
+                if l == f"{S}.get({sp})":
+                    return True
+                if l == f"not {S}.get({sp})":
+                    return False
+            return None
+
+        # EAFP: the subscript/del on the store sits in a try whose KeyError arm returns False
+        eafp_false = set()
+        for t_ in walk_local(f.node):
+            if isinstance(t_, ast.Try) and any(isinstance(x, ast.Subscript) and ast.unparse(x.value) == S and ast.unparse(x.slice) == sp for b_ in t_.body for x in walk_local(b_)):
+                for h_ in t_.handlers:
+                    if h_.type is not None and ast.unparse(h_.type) in ("KeyError", "LookupError"):
+                        for x in (y for b_ in h_.body for y in walk_local(b_)):
+                            if isinstance(x, ast.Return):
+                                eafp_false.add(id(x))
         for st, node in out.ret:
             ret = subst_text(node.value, st) if node.value is not None else "None"
             evs = list(st.events)
-            if present in st.lits:
+            pres = _presence(st)
+            if pres is None and eafp_false:
+                pres = id(node) not in eafp_false  # reached the end of the try without KeyError: the key was there
+            if pres is True:
                 if eff == "touch":
                     ok = evs == [f"touch[{sp}].last_activity=time.time()"] and ret == "True"
                 else:
                     ok = evs == [f"del[{sp}]"] and ret == "True"
-            elif absent in st.lits:
+            elif pres is False:
                 ok = not evs and ret == "False"
             else:
                 ok = False
@@ -273,9 +319,55 @@ def check(P: Project, R: Report) -> None:
                         sel_ok = cond in accepted
                         sel_detail = f"loop selects {k} if {cond}"
                         sel_var = call_name(inner.value)[: -len(".append")]
+    single_pass = None
+    if sel_var is None:
+        # single pass over a snapshot: for k, v in tuple(store.items()): if now - v.last_activity > max_age: del store[k]; n += 1
+        snap_iters = {f"tuple({S}.items())", f"list({S}.items())", f"{S}.copy().items()", f"dict({S}).items()"}
+        for s in walk_local(ce.node):
+            if isinstance(s, ast.For) and ast.unparse(s.iter) in snap_iters and isinstance(s.target, ast.Tuple) and len(s.target.elts) == 2 and not s.orelse:
+                k, v = (ast.unparse(e) for e in s.target.elts)
+                if any(isinstance(x, (ast.Break, ast.Return)) for x in walk_local(s)):
+                    sel_var, sel_ok, sel_detail = "<in place>", False, "the single-pass cleanup stops early: later sessions are not examined"
+                    break
+                local = {}
+                ifs = []
+                ok_shape = True
+                for b in s.body:
+                    if isinstance(b, ast.Assign) and len(b.targets) == 1 and isinstance(b.targets[0], ast.Name):
+                        local[b.targets[0].id] = b.value
+                    elif isinstance(b, ast.If) and not b.orelse:
+                        ifs.append(b)
+                    else:
+                        ok_shape = False
+                if not ok_shape or len(ifs) != 1:
+                    continue
+                test = ifs[0].test
+
+                class _S(ast.NodeTransformer):
+                    def visit_Name(self, n):
+                        return local[n.id] if isinstance(n.ctx, ast.Load) and n.id in local else n
+
+                import copy as _c
+
+                cond = norm_lit(_S().visit(_c.deepcopy(test)), True)
+                now_names = [x.targets[0].id for x in walk_local(ce.node) if isinstance(x, ast.Assign) and isinstance(x.targets[0], ast.Name) and ast.unparse(x.value) == "time.time()"]
+                accepted = set()
+                for nw in now_names + ["time.time()"]:
+                    accepted |= {f"{nw} - {v}.last_activity > {max_age}", f"{max_age} < {nw} - {v}.last_activity"}
+                dels = [b for b in ifs[0].body if isinstance(b, ast.Delete) and [ast.unparse(t) for t in b.targets] == [f"{S}[{k}]"]]
+                incs = [b for b in ifs[0].body if isinstance(b, ast.AugAssign) and isinstance(b.op, ast.Add) and isinstance(b.target, ast.Name) and ast.unparse(b.value) == "1"]
+                others = [b for b in ifs[0].body if b not in dels and b not in incs and not (isinstance(b, ast.Expr) and isinstance(b.value, ast.Call) and call_name(b.value).startswith(("logging.", "logger.")))]
+                if len(dels) == 1 and len(incs) == 1 and not others:
+                    counter = incs[0].target.id
+                    inits = [x for x in walk_local(ce.node) if isinstance(x, ast.Assign) and len(x.targets) == 1 and ast.unparse(x.targets[0]) == counter]
+                    zero = len(inits) == 1 and isinstance(inits[0].value, ast.Constant) and inits[0].value.value == 0
+                    sel_var = "<in place>"
+                    sel_ok = cond in accepted and zero
+                    sel_detail = f"single pass over a snapshot deletes {k} if {cond}, counting in `{counter}` (initialised to 0: {zero})"
+                    single_pass = counter
     R.need(sel_var is not None, "cleanup_expired: the selection of expired keys is written in a shape this rule cannot read")
     R.ob("R4", "expired = keys with now - last_activity > max_age", sel_ok, ce.where, sel_detail, sample=f"R4 cleanup_expired: {sel_detail}")
-    del_ok = False
+    del_ok = single_pass is not None
     for s in walk_local(ce.node):
         if isinstance(s, ast.For) and ast.unparse(s.iter) == sel_var and isinstance(s.target, ast.Name):
             if len(s.body) == 1 and isinstance(s.body[0], ast.Delete) and [ast.unparse(t) for t in s.body[0].targets] == [f"{S}[{s.target.id}]"]:
@@ -285,7 +377,7 @@ def check(P: Project, R: Report) -> None:
     for st, node in out.ret:
         evs = [e for e in st.events if not e.startswith("del[")]
         ret = ast.unparse(node.value) if node.value is not None else "None"
-        R.ob("R4", "only deletions, returns the count", not evs and ret == f"len({sel_var})", f"{ce.module.rel}:{node.lineno}", f"effects {list(st.events)} returns {ret}")
+        R.ob("R4", "only deletions, returns the count", not evs and (ret == f"len({sel_var})" or (single_pass is not None and ret == single_pass)), f"{ce.module.rel}:{node.lineno}", f"effects {list(st.events)} returns {ret}")
     R.ob("R4", "cleanup cannot fall off the end", not out.normal and bool(out.ret), ce.where, "")
 
     # ------------------------------------------------------------------ R5
